@@ -30,6 +30,7 @@
 #include "common.h"
 #include "vio_mem.h"
 #include <unistd.h>
+#include <stddef.h>
 #include <fcntl.h>
 #include <errno.h>
 #include <sys/stat.h>
@@ -208,7 +209,99 @@ static size_t unhex (const char *s, unsigned char *out, size_t cap)
    chunk iter <h> <idhex|-> [short]    full iteration (or by id): "n=<count> list=<id>:<size>:<digest>,..." ; with "short" every
                                         sf_get_chunk_data is also called with datalen = size/2 into an exact-size guarded buffer
    chunk abandon <h> <idhex> <k>       start an iteration by id, drop it after k steps */
-static void do_chunk (void)
+
+static void phex (const char *label, const void *p, size_t n)
+{	const unsigned char *b = p ; printf (" %s=x", label) ; for (size_t i = 0 ; i < n ; i++) printf ("%02x", b [i]) ; }
+static void pstr (const char *label, const char *p, size_t max)
+{	size_t n = strnlen (p, max) ; phex (label, p, n) ; }
+static void hexfield (char *dst, size_t cap, const char *tok)
+{	unsigned char tmp [70000] ; size_t n = unhex (tok, tmp, sizeof (tmp)) ; if (n > cap) n = cap ; memset (dst, 0, cap) ; memcpy (dst, tmp, n) ; }
+
+/* bext|cart|cue|inst|chmap <h> set ... | get : metadata through sf_command */
+static void do_meta (void)
+{	const char *kind = toks [0] ; int h = tokll (1) ; int set = ! strcmp (toks [2], "set") ;
+	if (! handles [h]) { printf ("%d %s nohandle=1\n", lineno, kind) ; return ; }
+	SNDFILE *f = handles [h] ; int r ;
+	printf ("%d %s", lineno, kind) ;
+	if (! strcmp (kind, "bext"))
+	{	static SF_BROADCAST_INFO_16K bi ; memset (&bi, 0, sizeof (bi)) ;
+		if (set)
+		{	hexfield (bi.description, sizeof (bi.description), toks [3]) ; hexfield (bi.originator, sizeof (bi.originator), toks [4]) ;
+			hexfield (bi.originator_reference, sizeof (bi.originator_reference), ntok > 6 ? toks [6] : "-") ;
+			hexfield (bi.origination_date, sizeof (bi.origination_date), "323032362d30392d3330") ; hexfield (bi.origination_time, sizeof (bi.origination_time), "31323a33343a3536") ;
+			bi.time_reference_low = 0x12345678 ; bi.time_reference_high = 7 ; bi.version = 1 ;
+			unsigned char tmp [20000] ; size_t n = unhex (toks [5], tmp, sizeof (bi.coding_history)) ; memcpy (bi.coding_history, tmp, n) ; bi.coding_history_size = (uint32_t) n ;
+			r = sf_command (f, SFC_SET_BROADCAST_INFO, &bi, (int) (offsetof (SF_BROADCAST_INFO, coding_history) + n)) ;
+			printf (" ret=%d", r) ;
+			}
+		else
+		{	r = sf_command (f, SFC_GET_BROADCAST_INFO, &bi, sizeof (bi)) ;
+			printf (" ret=%d", r) ;
+			if (r) { pstr ("desc", bi.description, sizeof (bi.description)) ; pstr ("orig", bi.originator, sizeof (bi.originator)) ; pstr ("oref", bi.originator_reference, sizeof (bi.originator_reference)) ;
+				pstr ("date", bi.origination_date, sizeof (bi.origination_date)) ; pstr ("time", bi.origination_time, sizeof (bi.origination_time)) ;
+				printf (" tref=%x:%x ver=%d hsize=%u", bi.time_reference_high, bi.time_reference_low, bi.version, bi.coding_history_size) ;
+				phex ("hist", bi.coding_history, bi.coding_history_size < sizeof (bi.coding_history) ? bi.coding_history_size : sizeof (bi.coding_history)) ; }
+			}
+		}
+	else if (! strcmp (kind, "cart"))
+	{	static SF_CART_INFO_16K ci ; memset (&ci, 0, sizeof (ci)) ;
+		if (set)
+		{	snprintf (ci.version, sizeof (ci.version), "0101") ; hexfield (ci.title, sizeof (ci.title), toks [3]) ; hexfield (ci.artist, sizeof (ci.artist), ntok > 5 ? toks [5] : "-") ;
+			ci.level_reference = 77 ; ci.post_timers [0].usage [0] = 'M' ; ci.post_timers [0].value = 99 ;
+			unsigned char tmp [20000] ; size_t n = unhex (toks [4], tmp, sizeof (ci.tag_text)) ; memcpy (ci.tag_text, tmp, n) ; ci.tag_text_size = (uint32_t) n ;
+			r = sf_command (f, SFC_SET_CART_INFO, &ci, (int) (offsetof (SF_CART_INFO, tag_text) + n)) ;
+			printf (" ret=%d", r) ;
+			}
+		else
+		{	r = sf_command (f, SFC_GET_CART_INFO, &ci, sizeof (ci)) ;
+			printf (" ret=%d", r) ;
+			if (r) { pstr ("title", ci.title, sizeof (ci.title)) ; pstr ("artist", ci.artist, sizeof (ci.artist)) ; printf (" level=%d timer=%d tsize=%u", ci.level_reference, ci.post_timers [0].value, ci.tag_text_size) ;
+				phex ("tag", ci.tag_text, ci.tag_text_size < sizeof (ci.tag_text) ? ci.tag_text_size : sizeof (ci.tag_text)) ; }
+			}
+		}
+	else if (! strcmp (kind, "cue"))
+	{	if (set)
+		{	int n = tokll (3) ; size_t sz = sizeof (uint32_t) + (size_t) n * sizeof (SF_CUE_POINT) ; unsigned char *b = calloc (1, sz + 1) ;
+			uint32_t cnt = n ; memcpy (b, &cnt, 4) ; SF_CUE_POINT *cp = (SF_CUE_POINT *) (b + 4) ;
+			for (int k = 0 ; k < n ; k++) { cp [k].indx = k + 1 ; cp [k].position = 7 * k + 1 ; cp [k].fcc_chunk = 0x61746164 ; cp [k].chunk_start = 0 ; cp [k].block_start = 0 ; cp [k].sample_offset = 13 * k + 5 ; snprintf (cp [k].name, sizeof (cp [k].name), "cue%d", k) ; }
+			r = sf_command (f, SFC_SET_CUE, b, (int) sz) ; printf (" ret=%d", r) ; free (b) ;
+			}
+		else
+		{	uint32_t cnt = 0 ; r = sf_command (f, SFC_GET_CUE_COUNT, &cnt, sizeof (cnt)) ; printf (" cret=%d count=%u", r, cnt) ;
+			size_t sz = sizeof (uint32_t) + (size_t) cnt * sizeof (SF_CUE_POINT) ; unsigned char *b = guarded_alloc (sz) ; memset (b, 0, sz) ;
+			r = sf_command (f, SFC_GET_CUE, b, (int) sz) ; printf (" ret=%d guard=%d", r, guard_ok (b, sz)) ;
+			if (r) { SF_CUE_POINT *cp = (SF_CUE_POINT *) (b + 4) ; printf (" cues=") ;
+				for (uint32_t k = 0 ; k < cnt ; k++) printf ("%s%d:%u:%u:%s", k ? "," : "", cp [k].indx, cp [k].position, cp [k].sample_offset, cp [k].name [0] ? cp [k].name : "-") ; }
+			guarded_free (b) ;
+			}
+		}
+	else if (! strcmp (kind, "inst"))
+	{	SF_INSTRUMENT in ; memset (&in, 0, sizeof (in)) ;
+		if (set)
+		{	in.basenote = tokll (3) ; in.detune = tokll (4) ; in.gain = tokll (5) ; in.velocity_lo = 1 ; in.velocity_hi = 120 ; in.key_lo = 2 ; in.key_hi = 100 ; in.loop_count = tokll (6) ;
+			for (int k = 0 ; k < in.loop_count && k < 16 ; k++) { in.loops [k].mode = SF_LOOP_FORWARD + (k % 3) ; in.loops [k].start = 2 + 3 * k ; in.loops [k].end = 4 + 3 * k ; in.loops [k].count = k ; }
+			r = sf_command (f, SFC_SET_INSTRUMENT, &in, sizeof (in)) ; printf (" ret=%d", r) ;
+			}
+		else
+		{	r = sf_command (f, SFC_GET_INSTRUMENT, &in, sizeof (in)) ; printf (" ret=%d", r) ;
+			if (r) { printf (" base=%d detune=%d gain=%d vel=%d:%d key=%d:%d loops=", in.basenote, in.detune, in.gain, in.velocity_lo, in.velocity_hi, in.key_lo, in.key_hi) ;
+				for (int k = 0 ; k < in.loop_count && k < 16 ; k++) printf ("%s%d:%u:%u:%u", k ? "," : "", in.loops [k].mode, in.loops [k].start, in.loops [k].end, in.loops [k].count) ;
+				if (in.loop_count == 0) printf ("-") ; }
+			}
+		}
+	else
+	{	int ch = P (h)->sf.channels ; int *map = calloc (ch + 1, sizeof (int)) ;
+		if (set) { for (int k = 0 ; k < ch ; k++) map [k] = 3 + k < ntok ? (int) tokll (3 + k) : SF_CHANNEL_MAP_MONO ; r = sf_command (f, SFC_SET_CHANNEL_MAP_INFO, map, ch * (int) sizeof (int)) ; printf (" ret=%d", r) ; }
+		else { r = sf_command (f, SFC_GET_CHANNEL_MAP_INFO, map, ch * (int) sizeof (int)) ; printf (" ret=%d map=", r) ; for (int k = 0 ; k < ch ; k++) printf ("%s%d", k ? "," : "", map [k]) ; }
+		free (map) ;
+		}
+	pos_fields (h) ; check_invariants (h) ; printf ("\n") ;
+}
+
+/* chunk ops follow */
+static void do_chunk_impl (void) ;
+static void do_chunk (void) { do_chunk_impl () ; }
+static void do_chunk_impl (void)
 {	int h = tokll (2) ; const char *sub = toks [1] ;
 	if (! handles [h]) { printf ("%d chunk nohandle=1\n", lineno) ; return ; }
 	if (! strcmp (sub, "set"))
@@ -574,6 +667,7 @@ int main (int argc, char **argv)
 		else if (! strcmp (op, "cmd")) do_cmd () ;
 		else if (! strcmp (op, "str")) do_str () ;
 		else if (! strcmp (op, "chunk")) do_chunk () ;
+		else if (! strcmp (op, "bext") || ! strcmp (op, "cart") || ! strcmp (op, "cue") || ! strcmp (op, "inst") || ! strcmp (op, "chmap")) do_meta () ;
 		else if (! strcmp (op, "peak"))
 		{	/* stored PEAK data of the handle: per channel value (as double bits) and position */
 			int h = tokll (1) ;
